@@ -290,7 +290,7 @@ Print Assumptions C15_step_no_loss_until_return.
    Missing: silence of the announce clauses and of the hang flags for arbitrary schedules (needs the
    invariant "provider snapshot = initial window, bidder snapshot inside the window at the step
    that reads it, effects so far sound / complete for the window" carried through compile and
-   windows); for arbitrary schedules it is tested on every run of the check only. *)
+   windows) -- closed in round A8 below: C15_checker_accepts_model_overlap states (2) for every schedule. *)
 Theorem C15_overlap_view_accepts_model : forall pr acts,
   NoDup (started_calls acts) ->
   Forall (fun a => match a with AOther (AddPeers _) | AOther (Disconnected _) => True | AOther _ => False | _ => True end) acts ->
@@ -309,7 +309,8 @@ Print Assumptions C15_overlap_checker_accepts_model_partial.
    flag condition is false -- no call ever sends the newcomer of its window a record with the
    newcomer's own address.  (From C15_step_sound, the link between a window and the SAdd step of its
    call, and the role invariant: a fan-out message never goes to the connecting provider itself.)
-   The clauses bidder, extra and missing are still proved only for the directed family above. *)
+   (The clauses bidder, extra and missing for arbitrary schedules: round A8 below,
+   C15_checker_accepts_model_overlap.) *)
 Theorem C15_overlap_self_accepts_model : forall acts w,
   NoDup (started_calls acts) -> In w (fst (windows abs_init [] acts)) ->
   let eff := call_effects (w_id w) (compile sinit acts) in
@@ -331,7 +332,9 @@ Print Assumptions C15_overlap_self_accepts_model.
    round: for the compiled schedule, the base state at the effective SReadProviders c / SReadBidders c
    step is the state at the end of the action that contains it, that action acts on c, so the
    snapshot's keys are inside the window's "ever" sets and contain its "always" sets.  The one-theorem
-   form stays open; C15_overlap_checker_accepts_model_partial (directed family) is unchanged. *)
+   form stayed open in that round; it is closed in round A8 below (C15_overlap_window_invariant,
+   C15_checker_accepts_model_overlap).  C15_overlap_checker_accepts_model_partial (directed family) is
+   unchanged and now an instance of the general theorem. *)
 Theorem C15_overlap_wires_accept_model : forall acts w,
   NoDup (started_calls acts) -> In w (fst (windows abs_init [] acts)) ->
   let eff := call_effects (w_id w) (compile sinit acts) in
@@ -345,6 +348,89 @@ Theorem C15_overlap_nonempty_accept_model : forall acts c,
   existsb (fun m => is_nil (snd m)) (announces eff) = false.
 Proof. exact Topology_overlap.overlap_nonempty_accept_model. Qed.
 Print Assumptions C15_overlap_nonempty_accept_model.
+
+(* Round A8: the invariant named above is proved, and with it the whole mode-2 checker is silent on the
+   step model for ARBITRARY schedules (proofs/Topology_overlap.v, second half).
+
+   WINDOW INVARIANT.  For every schedule with pairwise distinct call ids whose atomic events are
+   AddPeers / Disconnected, every window w the checker computes from the schedule alone, and every
+   EFFECTIVE read step of w's call in the compiled schedule (the SReadProviders / SReadBidders step at
+   which the call really takes its snapshot: the call is known at that point, at stage n): the base
+   state at that step is abstracted by sets A0 (the key sets of its provider and bidder maps) with
+   A0 inside the window's "ever" sets and containing its "always" sets. *)
+Theorem C15_overlap_window_invariant : forall acts w pre rd post n,
+  NoDup (started_calls acts) ->
+  Forall (fun a => match a with AOther (AddPeers _) | AOther (Disconnected _) => True | AOther _ => False | _ => True end) acts ->
+  In w (fst (windows abs_init [] acts)) ->
+  compile sinit acts = pre ++ rd :: post ->
+  rd = SReadProviders (w_id w) \/ rd = SReadBidders (w_id w) ->
+  (exists k0, find_call (w_id w) (calls (srun pre)) = Some k0 /\ k_pc k0 = n) ->
+  exists A0,
+    (aP A0 = map p_addr (providers (base (srun pre))) /\ aB A0 = map p_addr (bidders (base (srun pre)))
+     /\ aF A0 = inflight (base (srun pre)))
+    /\ incl (aP A0) (w_everP w) /\ incl (aB A0) (w_everB w) /\ incl (w_alwP w) (aP A0) /\ incl (w_alwB w) (aB A0).
+Proof. exact Topology_overlap.window_invariant. Qed.
+Print Assumptions C15_overlap_window_invariant.
+
+(* SOUNDNESS CLAUSES, arbitrary schedules: whatever the "returned" flag, the only clause a call of the
+   step model can raise against its window is announce:missing -- announce:self, announce:bidder and
+   all four disjuncts of announce:extra (foreign record, empty message, wrong fan-out message,
+   unexpected PeerList) are silent. *)
+Theorem C15_overlap_sound_clauses_accept_model : forall acts w done,
+  NoDup (started_calls acts) ->
+  Forall (fun a => match a with AOther (AddPeers _) | AOther (Disconnected _) => True | AOther _ => False | _ => True end) acts ->
+  In w (fst (windows abs_init [] acts)) ->
+  forall k, In k (call_clauses w done (call_effects (w_id w) (compile sinit acts))) -> k = "announce:missing"%string.
+Proof. exact Topology_overlap.overlap_sound_clauses_accept_model. Qed.
+Print Assumptions C15_overlap_sound_clauses_accept_model.
+
+(* ALL CLAUSES OF ONE CALL, arbitrary schedules: a call that has run to its end (the model's own
+   "returned" flag) raises nothing: no provider of the window's "always" set with a successful
+   lookup is missing from what the newcomer was sent, no bidder of the "always" set misses the
+   newcomer's record, no PeerList is missing. *)
+Theorem C15_overlap_call_clauses_accept_model : forall acts w,
+  NoDup (started_calls acts) ->
+  Forall (fun a => match a with AOther (AddPeers _) | AOther (Disconnected _) => True | AOther _ => False | _ => True end) acts ->
+  In w (fst (windows abs_init [] acts)) ->
+  (exists k, find_call (w_id w) (calls (srun (compile sinit acts))) = Some k /\ call_done k = true) ->
+  call_clauses w true (call_effects (w_id w) (compile sinit acts)) = [].
+Proof. exact Topology_overlap.overlap_call_clauses_accept_model. Qed.
+Print Assumptions C15_overlap_call_clauses_accept_model.
+
+(* ONE THEOREM for mode 2 (the form of C15_checker_accepts_model): on EVERY schedule with pairwise
+   distinct call ids, AddPeers / Disconnected as atomic events and every started call released to its
+   end, the whole overlap checker -- every announce clause of every call, the hang flags, the view
+   clause -- reports nothing on the step model's own observation.  Each of the three premises is
+   necessary (C15_checker_overlap_premises_necessary); they hold for every schedule the driver
+   generates (ids are a counter, atomic events are AddPeers / Disconnected, the tail releases every
+   call until it returns). *)
+Theorem C15_checker_accepts_model_overlap : forall i roles pr acts,
+  NoDup (started_calls acts) ->
+  Forall (fun a => match a with AOther (AddPeers _) | AOther (Disconnected _) => True | AOther _ => False | _ => True end) acts ->
+  (forall c, In c (started_calls acts) ->
+     exists k, find_call c (calls (srun (compile sinit acts))) = Some k /\ call_done k = true) ->
+  case_violations (model_overlap_case i roles pr acts) = [].
+Proof. exact Topology_overlap.checker_accepts_model_overlap. Qed.
+Print Assumptions C15_checker_accepts_model_overlap.
+
+(* necessity of the premises, by three concrete schedules over the pool of proofs/Topology_proofs.v:
+   a call left parked (view:hang); one id used by two calls (announce:missing, view); an atomic
+   Gossip / ConnectDone pair, whose add the schedule does not show (announce:extra, view) *)
+Theorem C15_checker_overlap_premises_necessary :
+  In "view:hang"%string (case_violations (model_overlap_case 0 [] [] (firstn 5 (directed_schedule 2))))
+  /\ case_violations (model_overlap_case 0 [] [1; 2; 3; 4; 5]
+        ([AStart 0 exQ exLkAll []; AStart 0 exB1 exLkAll []; AStart 1 exP1 exLkAll []] ++ Topology_overlap.exReleases 4))
+      = ["announce:missing"; "view"]%string
+  /\ case_violations (model_overlap_case 0 [] [1; 2; 3; 4; 5]
+        ([AStart 0 exQ exLkAll []; AOther (Gossip exQ true [(addr_bytes 9, bos "u9")]);
+          AOther (ConnectDone (bos "u9") (Some (mkPeer 9 ROLE_BIDDER))); AStart 1 exP1 exLkAll []] ++ Topology_overlap.exReleases 4))
+      = ["announce:extra"; "view"]%string.
+Proof.
+  exact (conj (proj2 Topology_overlap.checker_overlap_needs_completion)
+        (conj (proj2 Topology_overlap.checker_overlap_needs_distinct_ids)
+              (proj2 (proj2 Topology_overlap.checker_overlap_needs_plain_events)))).
+Qed.
+Print Assumptions C15_checker_overlap_premises_necessary.
 
 (* ---- event level versus system level: the late add ----------------------------------------------
    C15_view is a statement about the events the Topology receives.  It is NOT the system-level claim
